@@ -304,7 +304,7 @@ theorem rel_arrive {w : World} {σ : SState} (h : RelCore w σ) (c n : Str) (cac
       have hold := h.infl c' n' cache e i hc he
       cases b with
       | true =>
-        simp only [if_true, List.mem_cons, hold, hcur, hlen, Option.isSome_some, and_true, true_and]
+        simp only [if_true, List.mem_cons, hold, hcur, hlen, Option.isSome_some, and_true]
         exact Or.comm
       | false =>
         simp only [Bool.false_eq_true, if_false, false_and, and_false, or_false]
@@ -795,7 +795,7 @@ theorem release_step {w : World} {σ : SState} (h : Rel w σ) (i : Nat) : Rel (r
             simp
     · have hcond' : ¬ ((⟨r.c, r.n, r.admitted, r.released⟩ : SReq).admitted = true ∧
           ¬ (⟨r.c, r.n, r.admitted, r.released⟩ : SReq).released = true) := hcond
-      simp only [hcond, if_false, specRelease, hsr, hcond']
+      simp only [hcond, if_false, specRelease, hsr]
       exact h
 
 
@@ -1573,7 +1573,7 @@ theorem step_rel {w : World} {σ : SState} (h : Rel w σ) (op : Op) :
 theorem judgeFrom_run {w : World} {σ : SState} (h : Rel w σ) (k : Nat) (ops : List Op) :
     judgeFrom σ k ops (run w ops) = none := by
   induction ops generalizing w σ k with
-  | nil => simp [KG.Model.LocalLimiter.run, judgeFrom]
+  | nil => simp [judgeFrom]
   | cons op ops ih =>
     obtain ⟨hchk, hrel⟩ := step_rel h op
     simp only [KG.Model.LocalLimiter.run]
@@ -1873,7 +1873,7 @@ theorem unwind_counts (ds : List Bool) : countAcq (unwind ds) = 0 ∧ countRel (
   unfold unwind countAcq countRel
   induction ds.filter id with
   | nil => simp
-  | cons x xs ih => simp [List.count_cons, ih.1, ih.2]
+  | cons x xs ih => simp [ih.1, ih.2]
 
 /-- after the acquire guard: nothing mentions the limiter any more; every deferred `Release` runs once -/
 theorem exec_tail (sc : Scenario) (post : List Stmt) (i : Nat) (ds : List Bool)
@@ -1931,7 +1931,7 @@ theorem exec_release_once (sc : Scenario) (p : List Stmt) (i : Nat) (ds : List B
             | true =>
               have := exec_tail sc post (i + 1 + 1) (true :: ds) h
               simp only [if_true, countAcq, countRel, List.count_cons] at this ⊢
-              simp [this.1, this.2, hds, countAcq, countRel]
+              simp [this.1, this.2, hds]
             | false =>
               simp only [Bool.false_eq_true, if_false, countAcq, countRel, List.count_cons]
               have h1 := hun.1; have h2 := hun.2
@@ -1942,7 +1942,7 @@ theorem exec_release_once (sc : Scenario) (p : List Stmt) (i : Nat) (ds : List B
             | true =>
               have := exec_tail sc post (i + 1 + 1) (true :: ds) h
               simp only [if_true, countAcq, countRel, List.count_cons] at this ⊢
-              simp [this.1, this.2, hds, countAcq, countRel]
+              simp [this.1, this.2, hds]
             | false =>
               simp only [Bool.false_eq_true, if_false, countAcq, countRel, List.count_cons]
               have h1 := hun.1; have h2 := hun.2
